@@ -23,7 +23,11 @@ func genC12(rng *rand.Rand, tier string) *sim.Plan {
 	M := pick(rng, []int{0, 1, 10, 7200})
 	p.Broker.MessageExpiryS = sim.Int(M)
 	p.Broker.SessionExpiryS = sim.Int(1000000)
-	p.Broker.MaxQueued = 1000
+	p.Broker.MaxQueued = pick(rng, []int{1000, 1000, 3, 6})
+	if p.Broker.MaxQueued < 100 {
+		p.Broker.MaxInflight = 2
+		p.Broker.InflightExpiryS = sim.Int(pick(rng, []int{0, 5, 30}))
+	}
 	// 0 publisher, 1 online subscriber, 2 offline subscriber, 3 slow subscriber
 	p.Clients = []sim.ClientSpec{{ID: "pub", Ver: pick(rng, []byte{5, 5, 4})}, {ID: "on", Ver: 5}, {ID: "off", Ver: pick(rng, []byte{5, 5, 4})}, {ID: "slow", Ver: 5}}
 	sub := func(c int) sim.Op {
@@ -39,8 +43,19 @@ func genC12(rng *rand.Rand, tier string) *sim.Plan {
 	if p.Clients[2].Ver == 4 {
 		p.Phases[0].Ops[3].Clean = false
 	}
-	p.Phases = append(p.Phases, sim.Phase{Ops: []sim.Op{{K: "cut", C: 2}}})
 	msg := 0
+	if chance(rng, 0.5) {
+		// the subscriber that goes offline leaves messages it was sent, but never acknowledged, behind (in-flight entries
+		// of its queue): with a small queue they are what a full queue sacrifices first once they have expired
+		p.Phases[0].Ops[3].Ack = "never"
+		var pre sim.Phase
+		for k := 0; k < 1+rng.IntN(3); k++ {
+			msg++
+			pre.Ops = append(pre.Ops, sim.Op{K: "publish", C: 0, Topic: "e/t", QoS: 1, Payload: fmt.Sprintf("x%d", msg)})
+		}
+		p.Phases = append(p.Phases, pre)
+	}
+	p.Phases = append(p.Phases, sim.Phase{Ops: []sim.Op{{K: "cut", C: 2}}})
 	Es := []uint32{1, 2, 5, 30, 3600, 0xFFFFFFFF}
 	rounds := 1 + rng.IntN(3)
 	var maxL int
@@ -129,6 +144,10 @@ func oracleC12(p *sim.Plan, out *sim.Outcome) []sim.Violation {
 				continue
 			}
 			cid, pl := di.Client, di.Payload
+			out.Probes["dropped: "+di.Err]++
+			if cid == "off" {
+				out.Probes["dropped for the offline subscriber: "+di.Err]++
+			}
 			if dropped[cid] == nil {
 				dropped[cid] = map[string]bool{}
 			}
@@ -200,12 +219,45 @@ func oracleC12(p *sim.Plan, out *sim.Outcome) []sim.Violation {
 			if resumeT < 0 {
 				continue
 			}
+			// messages the subscriber was sent before it went away and never acknowledged (in-flight entries of its
+			// queue): after the resume each is retransmitted, or was reported dropped (expired in-flight entry
+			// sacrificed by a full queue, expired message) — it does not just vanish either
+			if p.Phases[0].Ops[3].Ack == "never" {
+				seenBefore, seenAfter := map[string]bool{}, map[string]bool{}
+				for _, r := range h.Recs {
+					if r.Kind == "rx" && r.C == si && r.Pkt.Type == mqttc.PUBLISH && r.Pkt.QoS > 0 {
+						if r.T < resumeT {
+							seenBefore[string(r.Pkt.Payload)] = true
+						} else {
+							seenAfter[string(r.Pkt.Payload)] = true
+						}
+					}
+				}
+				for pl := range seenBefore {
+					if !seenAfter[pl] && !dropped[id][pl] {
+						vs = append(vs, viol("C12", "reported", "silently-gone-inflight", "message %q was sent to subscriber %s and never acknowledged; after the subscriber resumed its session it was neither retransmitted nor had it been reported through OnMsgDropped (max_queued_messages %d)", pl, id, p.Broker.MaxQueued))
+					}
+				}
+			}
+			subResp := -1
+			for _, o := range h.Ops {
+				if o.Op.K == "subscribe" && o.Op.C == si && o.Ack != nil && subResp < 0 {
+					subResp = o.Resp
+				}
+			}
 			for pl, pb := range pubs {
-				if first[pl] != nil || pb.life == 0 || pb.op.Op.QoS == 0 && false {
+				if first[pl] != nil {
 					continue
 				}
-				if resumeT > pb.t1+pb.life+slack && !dropped[id][pl] {
+				if pb.life != 0 && resumeT > pb.t1+pb.life+slack && !dropped[id][pl] {
 					vs = append(vs, viol("C12", "reported", "unreported", "message %q (lifetime %v) expired while subscriber %s was offline and was neither delivered nor reported through OnMsgDropped", pl, pb.life, id))
+					continue
+				}
+				// whatever the reason (expired, queue full, expired in-flight entry sacrificed): a QoS>0 message accepted for
+				// the session and never delivered is reported, it does not just vanish. The run ends quiescent, with the
+				// subscriber back and acknowledging.
+				if pb.op.Op.QoS > 0 && pb.op.Ack != nil && subResp >= 0 && pb.op.Inv > subResp && !dropped[id][pl] {
+					vs = append(vs, viol("C12", "reported", "silently-gone", "QoS %d message %q, accepted while subscriber %s held its subscription, was neither delivered to it (before or after it came back) nor reported through OnMsgDropped (max_queued_messages %d)", pb.op.Op.QoS, pl, id, p.Broker.MaxQueued))
 				}
 			}
 		}
